@@ -20,6 +20,8 @@ var c06Carriers = []string{
 	`<p>alpha</p><img src="REF">`,
 	`<p>alpha</p><img src="i.png" srcset="REF 1x, second.png 2x">`,
 	`<p>alpha</p><picture><source srcset="REF 2x"><img src="p.png"></picture>`,
+	// fractional density and width descriptors (round k)
+	`<p>alpha</p><img src="i.png" srcset="REF 1.5x, second.png 2.25x"><img src="REF" srcset="second.png 0.5x, REF 640w">`,
 	`<p>alpha</p><figure><img src="REF"><figcaption>capt <a href="REF">l</a></figcaption></figure>`,
 	`<p>alpha</p><video src="REF" poster="REF"><source src="REF"><track src="REF"></video>`,
 	`<p>alpha</p><video poster="REF"><source src="REF"></video>`,
